@@ -19,7 +19,7 @@ func (p *propC13) ID() string     { return "C13" }
 func (p *propC13) Engine() string { return "rx" }
 func (p *propC13) Level() string  { return "exploration" }
 func (p *propC13) Rule() string {
-	return "scenario = 20-200 record operations over the 16 local types: definitions of different hosted (and unknown) messages with different field lists, sizes and byte orders, data records, compressed-timestamp records on types 0-3, redefinitions of a type that is in use; in a quarter of the scenarios one data record for a never-defined local type is inserted at a seeded position. Decoded through a seeded read plan; every record is compared with the 16-slot decode model; for the undefined-type case Decode must fail and the partial File must hold exactly the earlier messages. " +
+	return "scenario = 20-200 record operations over the 16 local types: definitions of different hosted (and unknown) messages with different field lists, sizes and byte orders, data records, compressed-timestamp records on types 0-3, redefinitions of a type that is in use; in a quarter of the scenarios one data record for a never-defined local type is inserted at a seeded position (sometimes as the very first data record, right behind the file_id definition). Decoded through a seeded read plan; every record is compared with the 16-slot decode model; for the undefined-type case Decode must fail and the partial File must hold exactly the earlier messages. " +
 		"key = (local type, change kind message|fields|order, compressed?, live slots); non-trivial when a local type was redefined while another was live"
 }
 func (p *propC13) Assumptions() []string {
@@ -29,7 +29,7 @@ func (p *propC13) Assumptions() []string {
 	}
 }
 func (p *propC13) ProbeNames() []string {
-	return []string{"redefinition switching byte order", "redefinition switching message", "redefinition changing field list", "16 types live at once", "compressed record after redefinition", "undefined type hit", "undefined compressed type hit", "same layout re-emitted with the other byte order", "identical definition re-emitted", "same fields re-emitted with developer fields toggled"}
+	return []string{"redefinition switching byte order", "redefinition switching message", "redefinition changing field list", "16 types live at once", "compressed record after redefinition", "undefined type hit", "undefined compressed type hit", "same layout re-emitted with the other byte order", "identical definition re-emitted", "same fields re-emitted with developer fields toggled", "undefined type in the first data record"}
 }
 
 func (p *propC13) Prepare(seed uint64, tier string) int {
@@ -57,6 +57,10 @@ func (p *propC13) Gen(idx int) *Scenario {
 	if r.Chance(1, 4) {
 		// insert a data record for a never-defined local type after position pos
 		pos := r.Range(2, len(rs.Ops))
+		first := r.Chance(1, 6) && len(rs.Ops) > 1 && rs.Ops[0].Def != nil && rs.Ops[1].Data != nil
+		if first {
+			pos = 1 // the very first data record of the file: right behind the file_id definition
+		}
 		defined := map[byte]bool{}
 		for _, op := range rs.Ops[:pos] {
 			if op.Def != nil {
@@ -77,6 +81,12 @@ func (p *propC13) Gen(idx int) *Scenario {
 		if len(free) > 0 {
 			l := free[r.Intn(len(free))]
 			bad := Op{Data: &DataOp{Local: l, Comp: comp, Off: byte(r.Intn(32)), Bytes: hexs(r.Bytes(r.Range(0, 6)))}}
+			if first {
+				// same payload as the real file_id record, which still follows: a decoder
+				// that ignores the local type of the first record would accept the stream
+				bad.Data.Bytes = rs.Ops[1].Data.Bytes
+				bad.Data.Comp = false
+			}
 			ops := append([]Op{}, rs.Ops[:pos]...)
 			ops = append(ops, bad)
 			ops = append(ops, rs.Ops[pos:]...)
@@ -99,6 +109,20 @@ func (p *propC13) Check(sc *Scenario, st *Stats) []Violation {
 	upto := len(rs.Ops)
 	if mo.ErrOp >= 0 {
 		upto = mo.ErrOp
+	}
+	if mo.ErrOp == 1 && rs.Ops[0].Def != nil && rs.Ops[0].Def.Global == 0 && rs.Ops[1].Data != nil {
+		// the very first data record names a local type without definition:
+		// the only requirement is the error (there is no File to compare yet)
+		r := runTask(&sc.Tasks[0], sc.buildMedia(), nil, nil)
+		st.Observe(r)
+		if r.Panic != "" {
+			return []Violation{{Property: "C13", Class: "C13/panic", Detail: r.Panic}}
+		}
+		st.Probe("undefined type in the first data record")
+		if r.ErrClass == "nil" {
+			return []Violation{{Property: "C13", Class: "C13/undefined-local-type-accepted", Detail: fmt.Sprintf("the first data record is for undefined local type %d (file_id is defined as local type %d), Decode returned nil", rs.Ops[1].Data.Local, rs.Ops[0].Def.Local&15)}}
+		}
+		return nil
 	}
 	if !streamSane(rs.Ops[:upto]) {
 		return nil
